@@ -285,6 +285,12 @@ func c09Run(f []string) string {
 		return ans + " tpl=" + HexS(tpl)
 	case "split":
 		return "ok " + HexListS(expressions.VerifSplitTokenizedArguments(string(UnHex(f[1]))))
+	case "stree", "streex":
+		a := c09FragRun(f)
+		if strings.HasPrefix(a, "panic") {
+			return "panic"
+		}
+		return a
 	case "tree":
 		t, rest := c09ParseTokens(strings.Split(f[2], ","))
 		if len(rest) != 0 {
@@ -796,6 +802,8 @@ func c09Gen(r *Rand, tier string) []string {
 			}
 		}
 	}
+	// trees over the standard function table (print_compile_std_fragment)
+	out = append(out, c09FragCases(r, tier)...)
 	return out
 }
 
@@ -854,6 +862,13 @@ func c09Stats(cases []string) map[string]int {
 			}
 			if strings.ContainsAny(t, "{}\\") {
 				st["lit.needsEscape"]++
+			}
+		case "stree", "streex":
+			st[f[0]+".nodes"] += strings.Count(f[2], ",") + 1
+			for _, tok := range strings.Split(f[2], ",") {
+				if strings.HasPrefix(tok, "C:") {
+					st["stree.fn."+string(UnHex(strings.Split(tok, ":")[1]))]++
+				}
 			}
 		case "tree":
 			st["tree.nodes"] += strings.Count(f[2], ",") + 1
